@@ -37,6 +37,7 @@ def run(ctx, repo):
 
     RX.r_timestamp_int_fields(ctx, repo)
 
+    RX.r_timestamp_exact(ctx, repo)
 
 if __name__ == '__main__':
     sys.exit(report.main('C08', 'proof', run))
